@@ -345,7 +345,10 @@ def gen_history(rnd, flavour="mixed", nops=None):
         elif x < 0.83:
             name, dropped = W.fault(extended=True)
             for n in dropped:
-                ops.append({"op": "drop", "node": n})
+                if rnd.random() < 0.7:
+                    ops.append({"op": "drop", "node": n})
+            if name == "kill_broker" and rnd.random() < 0.6:
+                ops.append({"op": "meta", "topics": [], "plan": W.plan()})      # full refresh: the dead broker's client goes
             continue
         elif x < 0.87:
             op = {"op": "reset_topics", "topics": [rnd.randint(0, UNIVERSE) for _ in range(rnd.randint(0, 2))]}
@@ -453,27 +456,28 @@ def gen_fallback_history(rnd):
             "seed": rnd.randint(0, 10 ** 6), "ops": ops}
 
 
-def gen_failover(rnd, attempts=3):
+def gen_failover(rnd, attempts=None):
     """C08 recovery: an honest cluster; warm up, inject a finite sequence of faults (leader moves, broker deaths,
-    restarts at new addresses, coordinator moves), then retry ONE fail_on_error request until it succeeds.
-    The ops after the last fault are marked {"retry": i}."""
+    restarts at new addresses, coordinator moves), then retry ONE request until it succeeds.
+    The ops after the last fault are marked {"retry": i}; hist["failover_bound"] is the number of attempts that may
+    fail: 1 when errors are delivered (fail_on_error=False heals every stale topic of the call at once), the number of
+    distinct topics of the request when they are raised (fail_on_error=True heals the first stale topic only)."""
     W = World(rnd, nbrokers=rnd.randint(2, 5), ntopics=rnd.randint(1, 3))
-    W.anchor = rnd.choice(sorted(W.brokers))
+    W.anchor = rnd.choice(sorted(W.brokers))          # one broker never dies or moves: the cluster stays reachable
     hosts = W.boot_hosts()
-    if W.brokers[W.anchor] not in hosts:
+    anchor_is_boot = rnd.random() < 0.7
+    if anchor_is_boot and W.brokers[W.anchor] not in hosts:
         hosts.append(W.brokers[W.anchor])
     ops = []
-    if rnd.random() < 0.8:
-        ops.append({"op": "meta", "topics": [], "plan": W.plan()})
+    if not anchor_is_boot or rnd.random() < 0.8:
+        ops.append({"op": "meta", "topics": [], "plan": W.plan()})       # the anchor becomes a KNOWN broker
     api = rnd.choice(PUBLIC_APIS)     # (the private _send_broker_aware_request does not go through _handle_responses)
     keys = dedup(W.payload_keys(rnd.choice([1, 2, 3, 5]), unknown=0.0))
     group = rnd.randint(0, 2) if api in ("offset_fetch", "offset_commit") else None
-    # fail_on_error=True raises at the FIRST error and invalidates only that response's topic: one failed attempt
-    # per stale topic.  The retried request therefore either delivers errors (as Producer does) or has one topic.
     retry_fail = rnd.random() < 0.5
-    if retry_fail:
-        keys = [k for k in keys if k[0] == keys[0][0]]
-
+    bound = len(set(k[0] for k in keys)) if retry_fail else 1
+    if group is not None:
+        bound = max(bound, 1)
     gform = group_form(rnd, api)
 
     def send(fail=True):
@@ -483,17 +487,20 @@ def gen_failover(rnd, attempts=3):
         ops.append(send(rnd.random() < 0.5))
     for _ in range(rnd.randint(1, 4)):
         name, dropped = W.fault()
+        if name == "restart_broker" and dropped and rnd.random() < 0.4:
+            # the client learns the new address while the old connection is still up; the connection dies afterwards
+            ops.append({"op": "meta", "topics": [], "plan": W.plan()})
         for n in dropped:
             ops.append({"op": "drop", "node": n})
-        if rnd.random() < 0.4:
+        if rnd.random() < 0.3:
             ops.append(send(rnd.random() < 0.5))          # an attempt while the cluster is still changing
     nfault = len(ops)
-    for i in range(attempts):
+    for i in range(attempts or bound + 2):
         op = send(retry_fail)
         op["retry"] = i
         ops.append(op)
     return {"hosts": [list(h) for h in hosts], "form": "tuples", "universe": UNIVERSE,
-            "seed": rnd.randint(0, 10 ** 6), "ops": ops, "failover_from": nfault}
+            "seed": rnd.randint(0, 10 ** 6), "ops": ops, "failover_from": nfault, "failover_bound": bound}
 
 
 # ------------------------------------------------------------------ _normalize_hosts on strings (case kind 2)
@@ -504,7 +511,7 @@ def gen_host_items(rnd):
         h = rnd.choice(names)
         port = rnd.choice([9092, 9092, 1, 65535, 1234, 9093])
         k = rnd.random()
-        ws = lambda: rnd.choice(["", "", " ", "  ", "\t", " \n"])
+        ws = lambda: rnd.choice(["", "", " ", "  ", "\t", " \n", "\x1f", "\x1c ", "\x0b"])
         if k < 0.35:
             items.append([0, ws() + h + ws(), 0])
         elif k < 0.7:
@@ -746,12 +753,15 @@ def expected_nodes(ob):
 def mon_routing(ob, bad):
     """C07_routing, C07_order, C07_accounting on one broker-aware send"""
     op = ob["op"]
+    if op["op"] == "sendcoord":
+        return mon_sendcoord_routing(ob, bad)
     if op["op"] != "send":
         return
     res = ob["result"]
     reqs = ob["pump"]["reqs"]
     keys = [tuple(k) for k in op["payloads"]]
     tags = ob["tags"]
+    mon_coordinator_found(ob, bad)
     if res["kind"] not in ("ok", "failed"):
         if reqs and not (res["kind"] == "error" and res["code"][0] in (2, 5)) and not after_closed(ob):
             bad.append(("C07_routing", "requests were sent although the call failed before the fan-out", res))
@@ -801,6 +811,128 @@ def mon_routing(ob, bad):
         rkeys = [(t, p) for t, p, _e, _g in res["responses"]]
         if rkeys != keys:
             bad.append(("C07_order", "honest brokers, yet the result is not one response per payload in order", rkeys, keys))
+    # acks=0 (no decoder): no responses; FailedPayloadsError exactly when a request could not be written, carrying
+    # exactly those requests' payloads
+    if not op.get("expect", True) and res["kind"] in ("ok", "failed"):
+        failed_reqs = [q for q in reqs if q["code"] != 1]
+        if res["responses"]:
+            bad.append(("C07_accounting", "acks=0, yet responses were returned", res["responses"]))
+        if res["kind"] == "ok" and failed_reqs:
+            bad.append(("C07_accounting", "acks=0: a request failed unwritten, yet the call reported success",
+                        [q["node"] for q in failed_reqs]))
+        if res["kind"] == "failed" and not failed_reqs:
+            bad.append(("C07_accounting", "acks=0: FailedPayloadsError although every request was written"))
+        if res["kind"] == "failed" and len(exp) == len(keys):
+            want_failed = [tg for q in failed_reqs for tg, n in zip(tags, exp) if n == q["node"]]
+            if res["failed"] != want_failed:
+                bad.append(("C07_accounting", "acks=0: failed payloads are not the unwritten requests' payloads", res["failed"], want_failed))
+
+
+def mon_coordinator_found(ob, bad):
+    """a coordinator that is cached, or whose lookup was just answered without error, is used"""
+    op, res, before = ob["op"], ob["result"], ob["before"]
+    g = op.get("group")
+    if g is None or before.get("closed") or after_closed(ob):
+        return
+    if res["kind"] == "error" and res["code"] == [4, 13]:
+        loads = ob["pump"]["loads"]
+        if g in before["g2c"]:
+            bad.append(("C07_routing", "CoordinatorNotAvailable although the coordinator was cached", g))
+        elif loads and loads[-1].get("kind") == 1 and loads[-1].get("resp") and loads[-1]["resp"][0] == 0:
+            bad.append(("C07_routing", "CoordinatorNotAvailable although the coordinator lookup was answered", g, loads[-1]["resp"]))
+
+
+def mon_sendcoord_routing(ob, bad):
+    """C07_coordinator_request: the single request goes to the coordinator the cache names, carrying the payload"""
+    op, res, before = ob["op"], ob["result"], ob["before"]
+    reqs = ob["pump"]["reqs"]
+    mon_coordinator_found(ob, bad)
+    if len(reqs) > 1:
+        bad.append(("C07_coordinator_request", "more than one request", [q["node"] for q in reqs]))
+    exp = expected_nodes({"op": {"group": op["group"], "payloads": [[-1, -1]]}, "before": before, "pump": ob["pump"]})
+    if reqs and exp:
+        q = reqs[0]
+        if q["node"] != exp[0]:
+            bad.append(("C07_coordinator_request", "request not sent to the coordinator", q["node"], exp[0]))
+        if q["tags"] is not None and q["tags"] != ob["tags"]:
+            bad.append(("C07_coordinator_request", "request does not carry the payload", q["tags"]))
+    if exp and not reqs and res["kind"] != "error" and not after_closed(ob):
+        bad.append(("C07_coordinator_request", "coordinator known, no request", exp))
+
+
+def mon_keyerror(ob, bad):
+    """C07_no_keyerror / C08_reachable_wf: with truthful metadata a KeyError never reaches the caller"""
+    code = None
+    if ob["op"]["op"] == "meta" and ob.get("code") == 5:
+        code = "load_metadata_for_topics failed with KeyError"
+    res = ob.get("result")
+    if isinstance(res, dict) and res.get("kind") == "error" and res.get("code") in ([4, 16], [4, 17]):
+        code = "the call failed with KeyError: " + str(res.get("repr"))[:120]
+    if code and all(ld.get("kind") != 0 or ld.get("resp") is None or raw_truthful(ld["resp"]) for ld in loads_of(ob)):
+        bad.append(("C07_no_keyerror", code))
+
+
+def mon_coord(ob, bad):
+    """the coordinator cache mirrors the coordinator answer (client.py:614-635) / C08_invalidate for coordinator requests"""
+    op, before, after = ob["op"], ob["before"], ob["after"]
+    g = op["group"]
+    if after_closed(ob):
+        return
+    others_b = {k: v for k, v in before["g2c"].items() if k != g}
+    others_a = {k: v for k, v in after["g2c"].items() if k != g}
+    if others_b != others_a:
+        bad.append(("C08_coordinator_cache", "another group's coordinator changed", others_b, others_a))
+    for t in set(before["tparts"]) | set(after["tparts"]) | set(before["terrs"]) | set(after["terrs"]):
+        if topic_view(before, t) != topic_view(after, t) and op["op"] == "coord":
+            bad.append(("C08_coordinator_cache", "a coordinator lookup changed the topic cache", t))
+    if op["op"] == "coord":
+        ld = ob["load"]
+        if ob["ok"] == 1:
+            c = ld["resp"]
+            if after["g2c"].get(g) != (c[1], c[2], c[3]):
+                bad.append(("C08_coordinator_cache", "cached coordinator differs from the answer", after["g2c"].get(g), c))
+            cl = after["clients"].get(c[1])
+            if cl is not None and tuple(cl[:2]) != (c[2], c[3]):
+                bad.append(("C08_coordinator_cache", "broker client of the coordinator does not aim at the answer's address", cl, c))
+        elif ob["ok"] == 0 and g in after["g2c"]:
+            bad.append(("C08_coordinator_cache", "failed coordinator lookup left a coordinator cached", g))
+        return
+    # sendcoord
+    res = ob["result"]
+    reqs = ob["pump"]["reqs"]
+    if res["kind"] == "error" and res["code"][0] == 2 and res["code"][1] in GROUP_ERRS and g in after["g2c"]:
+        bad.append(("C08_invalidate_coordinator_request", "coordinator error left the coordinator cached", res["code"]))
+    if res["kind"] == "error" and res["code"] == [4, 18] and reqs:
+        # documented deviation (C08_coordinator_failed_send_keeps_cache): the failed send does NOT invalidate
+        if after["g2c"].get(g, (None,))[0] != reqs[0]["node"]:
+            bad.append(("C08_coordinator_failed_send_keeps_cache", "behaviour changed: the cached coordinator is no longer kept after a failed send",
+                        after["g2c"].get(g), reqs[0]["node"]))
+    if res["kind"] == "ok" and res["responses"][0][2] == 0 and g not in after["g2c"]:
+        bad.append(("C08_coordinator_cache", "successful coordinator request lost the cached coordinator", g))
+
+
+def mon_reset(ob, bad):
+    """reset_topic_metadata / reset_consumer_group_metadata / reset_all_metadata (client.py:274-326)"""
+    op, before, after = ob["op"], ob["before"], ob["after"]
+    kind = op["op"]
+    if before["clients"] != after["clients"]:
+        bad.append(("C08_reset", "a reset touched the broker clients"))
+    if kind == "reset_all":
+        if not all_cleared(after):
+            bad.append(("C08_reset", "reset_all_metadata left something cached",
+                        {k: after[k] for k in ("tparts", "t2b", "terrs", "g2c") if after[k]}))
+        return
+    topics = set(op.get("topics", [])) if kind == "reset_topics" else set()
+    groups = set(op.get("groups", [])) if kind == "reset_groups" else set()
+    for t in set(before["tparts"]) | set(after["tparts"]) | set(before["terrs"]) | set(after["terrs"]) | set(k[0] for k in before["t2b"]):
+        if t in topics:
+            if topic_view(after, t) != (None, None, []):
+                bad.append(("C08_reset", "topic still cached after reset_topic_metadata", t, topic_view(after, t)))
+        elif topic_view(before, t) != topic_view(after, t):
+            bad.append(("C08_reset", "reset changed another topic", t))
+    want = {k: v for k, v in before["g2c"].items() if k not in groups}
+    if after["g2c"] != want:
+        bad.append(("C08_reset", "coordinator cache after the reset", after["g2c"], want))
 
 
 def loads_of(ob):
@@ -882,11 +1014,20 @@ def monitors(hist, obs, which):
                 mon_invalidate(ob, bad)
                 mon_reresolve(ob, bad)
                 mon_connect_addr(ob, bad)
+            if kind in ("coord", "sendcoord"):
+                mon_coord(ob, bad)
+            if kind in ("reset_all", "reset_topics", "reset_groups"):
+                mon_reset(ob, bad)
         else:
-            if kind == "send":
+            if kind in ("send", "sendcoord"):
                 mon_routing(ob, bad)
+            if kind == "send":
                 mon_reresolve(ob, bad)
             mon_fallback(ob, tr, bad)
+        mon_keyerror(ob, bad)
+        if ob.get("leaks"):
+            bad.append(("C08_full_refresh_closes", "connection left open although its broker client was dropped / the client closed / the bootstrap request ended",
+                        ob["leaks"][:4]))
         track(ob, tr)
         for j in range(n0, len(bad)):
             bad[j] = (i,) + tuple(bad[j])
@@ -906,8 +1047,8 @@ def mon_recovery(hist, obs):
     else:
         return [(idx[-1] if idx else -1, "C08_recovery_partial", "no attempt succeeded after the last fault",
                  [obs[i]["result"] for i in idx])]
-    if fails > 1:
-        return [(idx[0], "C08_recovery_partial", "more than one failed attempt after the last fault", fails,
+    if fails > hist.get("failover_bound", 1):
+        return [(idx[0], "C08_recovery_partial", "more failed attempts after the last fault than stale topics", fails, hist.get("failover_bound", 1),
                  [obs[i]["result"] for i in idx])]
     return []
 
@@ -976,6 +1117,16 @@ def stats(ck, hist, obs):
                 ck.hist("send_raised_notleader_or_unknown")
             if res["kind"] == "error" and res["code"][0] == 2 and res["code"][1] in GROUP_ERRS:
                 ck.hist("send_raised_coordinator_error")
+        if op["op"] == "reset_all" and ob["before"]["g2c"]:
+            ck.hist("reset_all_with_coordinator_cached")
+        if op["op"] == "reset_groups" and set(op["groups"]) & set(ob["before"]["g2c"]):
+            ck.hist("reset_group_that_was_cached")
+        if op["op"] == "coord":
+            ck.hist("coord_lookup_ok" if ob["ok"] == 1 else "coord_lookup_failed")
+        if op["op"] == "send" and op.get("api") == "fetch":
+            ck.hist("send_fetch")
+        if op.get("group_form") == "bytes":
+            ck.hist("group_name_bytes")
         if ob.get("reaped"):
             ck.hist("connection_at_dead_address_reset", len(ob["reaped"]))
         if op["op"] == "send" and ob["pump"]["reqs"]:
